@@ -15,6 +15,8 @@ pub struct TraitFn {
     pub attrs: Vec<syn::Attribute>,
     pub entrait_sig: EntraitSignature,
     pub originally_async: bool,
+    /// The type and const parameters of the original fn, as arguments for calling it (`::<_, T, N>`)
+    pub fn_generic_args: Option<proc_macro2::TokenStream>,
 }
 
 impl TraitFn {
@@ -71,12 +73,50 @@ impl TraitFnAnalyzer<'_> {
             impl_receiver_kind: self.impl_receiver_kind,
         }
         .convert_fn_to_trait_fn();
+        let fn_generic_args = gen_fn_generic_args(&input_sig.generics, &deps);
         Ok(TraitFn {
             deps,
             attrs: vec![],
             entrait_sig,
             originally_async: input_sig.asyncness.is_some(),
+            fn_generic_args,
         })
+    }
+}
+
+/// A type or const parameter that no argument determines cannot be inferred in the delegating call:
+/// the parameters are passed on explicitly (the dependency parameter itself stays inferred)
+fn gen_fn_generic_args(generics: &syn::Generics, deps: &FnDeps) -> Option<proc_macro2::TokenStream> {
+    let deps_param = match deps {
+        FnDeps::Generic { generic_param, .. } => generic_param.as_ref(),
+        _ => None,
+    };
+    let mut any_lifted = false;
+    let args: Vec<proc_macro2::TokenStream> = generics
+        .params
+        .iter()
+        .filter_map(|param| match param {
+            syn::GenericParam::Type(type_param) if Some(&type_param.ident) == deps_param => {
+                Some(quote::quote! { _ })
+            }
+            syn::GenericParam::Type(type_param) => {
+                any_lifted = true;
+                let ident = &type_param.ident;
+                Some(quote::quote! { #ident })
+            }
+            syn::GenericParam::Const(const_param) => {
+                any_lifted = true;
+                let ident = &const_param.ident;
+                Some(quote::quote! { #ident })
+            }
+            syn::GenericParam::Lifetime(_) => None,
+        })
+        .collect();
+
+    if any_lifted {
+        Some(quote::quote! { ::<#(#args),*> })
+    } else {
+        None
     }
 }
 
